@@ -600,7 +600,7 @@ StateScript *ProgramScript::GetCatchStateScript(const opval_t* in, const opval_t
 
         if (in >= catchBlock.GetTryStartCodePos() && in < catchBlock.GetTryEndCodePos())
         {
-            if (!bestCatchBlock || catchBlock.GetTryEndCodePos() < bestCatchBlock->GetTryStartCodePos())
+            if (!bestCatchBlock || catchBlock.GetTryEndCodePos() < bestCatchBlock->GetTryEndCodePos())
             {
                 bestCatchBlock = &catchBlock;
             }
